@@ -51,7 +51,7 @@ class Cell:
 
     def label(self):
         return (f"{self.obs}|{self.process}|{self.fns}|NfFF={self.nfff}|PTO={self.pto}|PTOevol={self.pto_evol}|TMC={self.tmc}"
-                f"|{self.projectile}|{self.target}|parts={self.fonllparts}|nf={self.nf}")
+                f"|{self.projectile}|{self.target}|parts={self.fonllparts}|nf={self.nf}" + ("|real weights" if getattr(self, "full_weights", False) else ""))
 
 
 def theory_card(cell):
